@@ -64,7 +64,8 @@ type c18Case struct {
 	Pre         []c18Pre `json:"pre,omitempty"`
 	NoSameOwner bool     `json:"no_same_owner"`
 	NoSamePerms bool     `json:"no_same_perms"`
-	Via         string   `json:"via"` // untar | index | cli | cli-index
+	Via         string   `json:"via"`            // untar | index | cli | cli-index
+	Dest        string   `json:"dest,omitempty"` // what is at the destination path before the run: "" = a directory | absent | file
 	Nameless    bool     `json:"nameless"`
 	// filled by the run
 	Class   string    `json:"class,omitempty"` // ok | error | panic
@@ -199,6 +200,30 @@ func c18HasNameless(els []c18El) bool {
 	return false
 }
 
+// the first entry has no name and is not a directory, and something follows it
+func c18LeafRoot(els []c18El) bool {
+	leaf, seen := false, false
+	for _, e := range els {
+		switch e.K {
+		case "F":
+			if !seen {
+				return false
+			}
+			return leaf
+		case "E":
+			if seen {
+				return leaf
+			}
+			seen = true
+		case "P", "S", "D":
+			if seen {
+				leaf = true
+			}
+		}
+	}
+	return false
+}
+
 func c18BadNames(els []c18El) bool {
 	for _, e := range els {
 		if e.K == "F" {
@@ -224,7 +249,15 @@ func c18Sandbox(moat string, c *c18Case) (sb, dest string, err error) {
 	sb = filepath.Join(p, "sb")
 	dest = filepath.Join(sb, "dest")
 	for _, d := range []string{dest, filepath.Join(sb, "outside", "sub"), filepath.Join(sb, "sib")} {
+		if d == dest && c.Dest != "" {
+			continue
+		}
 		if err = os.MkdirAll(d, 0755); err != nil {
+			return
+		}
+	}
+	if c.Dest == "file" {
+		if err = os.WriteFile(dest, []byte("DEST-IS-A-FILE"), 0644); err != nil {
 			return
 		}
 	}
@@ -245,6 +278,9 @@ func c18Sandbox(moat string, c *c18Case) (sb, dest string, err error) {
 		return
 	}
 	for _, pr := range c.Pre {
+		if c.Dest != "" {
+			break
+		}
 		q := filepath.Join(dest, pr.Path)
 		switch pr.Kind {
 		case "d":
@@ -300,7 +336,6 @@ func c18Snapshot(root string) map[string]c18Snap {
 		case info.Mode()&os.ModeSymlink != 0:
 			s.Kind = "l"
 			s.Target, _ = os.Readlink(q)
-			s.MTime = 0
 		case info.Mode().IsRegular():
 			s.Kind = "f"
 			s.Size = info.Size()
@@ -669,6 +704,7 @@ func c18Judge(a vh.Args, o *vh.Oracle, r *vh.Result, c *c18Case) error {
 	r.Count(c.Shape+"|"+c.Via+"|"+hex.EncodeToString(sum[:8]), hostile)
 	r.Dist("shape:" + c.Shape)
 	r.Dist("via:" + c.Via)
+	r.Dist("dest:" + map[string]string{"": "directory", "absent": "absent", "file": "file"}[c.Dest])
 	r.Dist("class:" + c.Class)
 	r.Dist("elems:" + bucket(len(c.Elems)))
 	if c.Class == "harness" {
@@ -686,6 +722,8 @@ func c18Judge(a vh.Args, o *vh.Oracle, r *vh.Result, c *c18Case) error {
 	if len(c.Outside) > 0 {
 		cls := "untar/escape"
 		switch {
+		case c18LeafRoot(c.Elems):
+			cls = "untar/root-entry-not-a-directory"
 		case c.Nameless:
 			cls = "untar/nameless-entry"
 		case c18BadNames(c.Elems):
@@ -707,12 +745,22 @@ func c18Judge(a vh.Args, o *vh.Oracle, r *vh.Result, c *c18Case) error {
 	}
 	sb := dest + "/sb"
 	dest = sb + "/dest"
-	fsTok := []string{"d:" + hx(sb) + ":493", "d:" + hx(dest) + ":493", "d:" + hx(sb+"/outside") + ":493", "d:" + hx(sb+"/outside/sub") + ":493", "d:" + hx(sb+"/sib") + ":493",
+	destTok := "d:" + hx(dest) + ":493"
+	switch c.Dest {
+	case "absent":
+		destTok = "d:" + hx(sb) + ":493"
+	case "file":
+		destTok = "f:" + hx(dest) + ":420:" + hx("DEST-IS-A-FILE")
+	}
+	fsTok := []string{"d:" + hx(sb) + ":493", destTok, "d:" + hx(sb+"/outside") + ":493", "d:" + hx(sb+"/outside/sub") + ":493", "d:" + hx(sb+"/sib") + ":493",
 		"f:" + hx(sb+"/outside/x") + ":420:" + hx("SENTINEL-x"), "f:" + hx(sb+"/outside/sub/y") + ":420:" + hx("SENTINEL-y"),
 		"f:" + hx(sb+"/sentinel") + ":420:" + hx("SENTINEL"), "f:" + hx(sb+"/sib/f") + ":420:" + hx("SENTINEL-f"),
 		"f:" + hx(c.Moat+"/top") + ":420:" + hx("SENTINEL-top"), "f:" + hx(c.Moat+"/m1/x") + ":420:" + hx("SENTINEL-m1x"),
 		"l:" + hx(sb+"/lnk") + ":" + hx("outside")}
 	for _, pr := range c.Pre {
+		if c.Dest != "" {
+			break
+		}
 		switch pr.Kind {
 		case "d":
 			fsTok = append(fsTok, "d:"+hx(dest+"/"+pr.Path)+":493")
@@ -804,8 +852,8 @@ func c18Judge(a vh.Args, o *vh.Oracle, r *vh.Result, c *c18Case) error {
 					n.S = f[6]
 				}
 			case "l":
-				n.UID, n.GID = uint32(num(2)), uint32(num(3))
-				n.S = f[4]
+				n.UID, n.GID, n.MTime = uint32(num(2)), uint32(num(3)), int64(num(4))
+				n.S = f[5]
 			}
 			model[p] = n
 		}
@@ -826,7 +874,7 @@ func c18Judge(a vh.Args, o *vh.Oracle, r *vh.Result, c *c18Case) error {
 				diff = append(diff, fmt.Sprintf("%s: owner model %d:%d, implementation %d:%d", p, m.UID, m.GID, i.UID, i.GID))
 			} else if m.K != "l" && i.Perm != m.Perm {
 				diff = append(diff, fmt.Sprintf("%s: mode model %o, implementation %o", p, m.Perm, i.Perm))
-			} else if (m.K == "f" || m.K == "v") && m.MTime != 0 && m.MTime != i.MTime {
+			} else if m.K != "d" && m.MTime != 0 && m.MTime != i.MTime {
 				diff = append(diff, fmt.Sprintf("%s: mtime model %d, implementation %d", p, m.MTime, i.MTime))
 			}
 		}
@@ -914,7 +962,7 @@ func runC18(a vh.Args, o *vh.Oracle, r *vh.Result) error {
 	if os.Getenv("VH_C18_CHILD") == "1" {
 		return c18Child(a)
 	}
-	r.Rule = "case = element sequence (crafted names, symlink-then-same-name, dir-then-symlink, nameless entries, excess goodbyes, element soup, nesting <= 6) x writer options x path (UnTar | UnTarIndex over a chunked local store | CLI untar | CLI untar -i) x optional earlier content of dest; runs in child processes; non-trivial = not a well-formed benign tree; distinct by element sequence + path"
+	r.Rule = "case = element sequence (crafted names, a root entry that is not a directory, symlink-then-same-name, dir-then-symlink, nameless entries, excess goodbyes, element soup, nesting <= 6) x writer options x path (UnTar | UnTarIndex over a chunked local store | CLI untar | CLI untar -i) x destination {directory, absent, regular file} x optional earlier content of dest; runs in child processes; non-trivial = not a well-formed benign tree; distinct by element sequence + path"
 	cliOK := c18PrepareChroot(a.Work)
 	if !cliOK {
 		r.Note("the desync CLI could not be installed in the children's chroot: CLI paths replaced by library paths")
